@@ -28,6 +28,8 @@ DEVS = [
     {"dev": {"k": "disc_withhold"}, "need_disclosed": 1},
     {"dev": {"k": "reported_missing_entry"}},
     {"dev": {"k": "subst_disclosed_everywhere"}, "need_disclosed": 1},
+    {"dev": {"k": "false_zero_disclosed"}, "need_disclosed": 1},
+    {"dev": {"k": "false_zero_disclosed"}, "need_disclosed": 2},
     {"dev": {"k": "swap_disclosed_everywhere"}, "need_disclosed": 2},
     {"dev": {"k": "swap_disclosed_everywhere"}, "need_disclosed": 3},
     # a false disclosed value carried by an over-long response vector (the surplus response absorbs the difference)
@@ -42,4 +44,4 @@ SHAPES = [dict(n_creds=1, n_claims=5), dict(n_creds=1, comm=True, n_claims=5), d
 
 def explore(ctx):
     return K.explore_generic("C02", ctx, DEVS, SHAPES, {"C02"},
-                             "(reported map with substituted value of the same / another claim type, omitted label, extra label, unknown label, swapped labels; proof index list reversed, aliased, padded with out-of-range indices in front / at the end, a requested claim withheld from the index list, missing map entry, consistently substituted value, the values of two disclosed claims exchanged consistently, also behind an over-long response vector, a requested claim withheld consistently everywhere, an unrequested claim disclosed consistently everywhere)")
+                             "(reported map with substituted value of the same / another claim type, omitted label, extra label, unknown label, swapped labels; proof index list reversed, aliased, padded with out-of-range indices in front / at the end, a requested claim withheld from the index list, missing map entry, consistently substituted value, the values of two disclosed claims exchanged consistently, a requested claim kept hidden in the proof and reported as a zero-valued claim, also behind an over-long response vector, a requested claim withheld consistently everywhere, an unrequested claim disclosed consistently everywhere)")
